@@ -199,12 +199,16 @@ def body_rotation(spec):
         if not hardware:
             if raised is not None:
                 return [Ob("simulation_mode_accepts_every_angle", False, site, info=str(raised)[:100])]
+            if len(out) != 1:
+                return [Ob("one_rotation_emitted", False, site, info={"emitted": len(out)})]
             o = out[0]
             return [Ob("one_rotation_emitted", len(out) == 1 and o.mnemonic == "rot_" + axis, site),
                     Ob("same_operands", z3.And(EQ(o.angle_num.value, n), EQ(o.angle_denom.value, d)), site)]
         # hardware mode
         if raised is not None:
             return [Ob("hardware_rejects_only_d_above_4", d > 4, site, info=str(raised)[:100])]
+        if len(out) != 1:
+            return [Ob("one_rotation_emitted", False, site, info={"emitted": len(out)})]
         o = out[0]
         n2, d2 = o.angle_num.value, o.angle_denom.value
         obs = [Ob("hardware_accepts_only_d_up_to_4", d <= 4, site),
